@@ -41,11 +41,24 @@ EXTRA_G = ("do NOT use numerical-tolerance tricks, dtype truncation/overflow, ca
            "handling of inputs given as column vectors / 2-D with one column / Python sequences / 0-length or length-1 inputs; duplicated or negative or non-consecutive group labels, labels of mixed magnitude; "
            "an index that is off by one only in the LAST or FIRST stratum / hypothesis / row; iteration order over a dict or set of labels that silently replaces sorted order; "
            "two cooperating edits in different functions that each preserve behaviour alone.")
+EXTRA_H_SIZES = ("this round has a FORCED category: the change must manifest ONLY on DEGENERATE or SMALLEST inputs that are still inside the property's domain -- "
+    "reps = 1 (or the smallest reps the function accepts), samples / strata / groups of size 1, a single stratum, a single hypothesis or column where one is allowed, "
+    "exactly 2 of something where 2 is the minimum, all values equal (zero variance), all p-values equal, x = 0 or x = n, n = N, k = 0 or k = 1, an empty sample where the property covers it, "
+    "a matrix with one row or one column, a sequence of length 0 or 1.  On every non-degenerate input the behaviour (results and random draws) must be bit-identical to the original. "
+    "Do not use tolerance tricks, dtype tricks, caches, seed-dependent behaviour or non-finite special-casing. Earlier rounds already produced these changes, so choose something different: {prev}.")
+EXTRA_H_SEQ = ("this round has a FORCED category: the change must manifest ONLY through a SEQUENCE of two or more calls that share an object, while every single call on fresh objects "
+    "behaves exactly as before (results and random draws bit-identical) -- e.g. the same generator instance (SHA256 or RandomState) passed to two successive calls (the second call must continue the "
+    "stream: not restart it, not skip draws, not depend on what the first call computed), the same Experiment / Randomizer used by several calls, a returned array that the caller edits before the next call, "
+    "an input array that a first call has left subtly changed (flags, dtype view, order) so that a second call differs, a result object that aliases an internal buffer reused by the next call. "
+    "No module-level caches keyed by id() or by value (earlier rounds did that); the state must live in the objects the caller legitimately shares between calls. "
+    "Do not use tolerance tricks, dtype overflow, or seed-value-dependent behaviour. Earlier rounds already produced these changes, so choose something different: {prev}.")
 def main():
     global EXTRA
     suffix = sys.argv[1]
     if suffix >= "g":
         EXTRA = EXTRA_G
+    if suffix == "h":
+        EXTRA = None
     for pid in sys.argv[2:]:
         p = props[pid]; name = pid + suffix
         wt = f'/tmp/wt/{name}'; out = f'/tmp/mut/{name}'
@@ -57,7 +70,8 @@ def main():
                 if x: prev.append('"' + x + '"')
         mech = '; '.join(m['name'] + ' @ ' + m.get('where', '') for m in p['anchors']['mechanism'])
         txt = TMPL.format(id=pid, title=p['title'], statement=p['statement'], quant=p['quantifier']['text'], files=', '.join(p['anchors']['files']),
-                          mech=mech, wt=wt, out=out, extra=EXTRA.format(prev=' | '.join(prev)))
+                          mech=mech, wt=wt, out=out,
+                          extra=(EXTRA if EXTRA is not None else (EXTRA_H_SIZES if int(pid[1:]) % 2 else EXTRA_H_SEQ)).format(prev=' | '.join(prev)))
         open(f'{out}/prompt.txt', 'w').write(txt)
         subprocess.run(['git', '-C', '/repo', 'worktree', 'remove', '--force', wt], capture_output=True)
         subprocess.run(['git', '-C', '/repo', 'worktree', 'add', '-q', '--detach', wt, 'HEAD'], check=True, capture_output=True)
